@@ -23,7 +23,7 @@ import itertools
 import numpy as np
 
 PROP = 'C04'
-TARGETS = ['T3', 'T5', 'T6', 'T7b', 'T7e', 'T4o', 'T5w', 'T5g', 'T4c', 'T4t', 'T4fi', 'T4fs']
+TARGETS = ['T3', 'T5', 'T6', 'T7b', 'T7e', 'T4o', 'T5w', 'T5g', 'T4c', 'T4t', 'T4fi', 'T4fs', 'T4fv']
 LEAN_MODULES = ['HdVerif.Props.C04']
 MODEL_MODULES = ['HdVerif.Model.TilingJson']
 NAMESPACE = 'HdVerif.C04'
@@ -36,6 +36,11 @@ ASSUMPTIONS = [
     'pixel values are opaque: decoding a stored frame to numbers (pydicom / C01, C05) is not part of this model',
     'numpy slice assignment with equal source and destination shapes copies element-wise (shapes are proved equal)',
     'SQLite returns exactly the FrameLUT rows matching the WHERE clause (the clause is pinned textually in T5)',
+    'the temporary channel table behaves like the four-statement fragment `Tiling.tempOp` (DROP [IF EXISTS], CREATE [IF NOT EXISTS], INSERT [OR '
+    'REPLACE] under one UNIQUE column, rollback of a failed executemany); compared with the rows of the real table after every step of every '
+    'history; table locks held by open cursors are NOT modelled',
+    'histories: whether the options of a call are refused by _get_pixels_by_seg_frame (inside the with-block) is an input of the model, computed '
+    'from the mask on the oracle side (combine_segments: overlap / non-binary fractions in the region; C02 models that method)',
 ]
 MODELLED_NOT_VERIFIED = ['SQLite query execution', 'numpy zeros / slice assignment / pad / any', 'pydicom dataset access and pixel decoding',
                          'Segmentation constructor outside the tiling loop (pixel casting, segment extraction: C01, C02)',
@@ -429,6 +434,45 @@ def _check_slide(ctx, cfg, requests, reqs, pending, exhaustive=False):
         'requests': [list(q) for q in requests if modelable(q)]}))
     pending.append(('multi', [{'slide': cfg, 'request': list(q)} for q in requests if modelable(q)],
                     [im_ for q, im_ in zip(requests, impls) if modelable(q)], 'L0', 'Image.get_total_pixel_matrix'))
+    # ---- the other public accessor of a region: Image.get_volume (tiled branch: the request is normalised to 0-based indices and
+    #      handed to get_total_pixel_matrix as indices).  A few requests per image; empty regions are left to the matrix read.
+    gv = getattr(im, 'get_volume', None)
+    if gv is not None and not exhaustive:
+        vreqs, vimpls = [], []
+        for req in requests[:5]:
+            rs, re, cs, ce, ai = req
+            orc = oracle_region(R, C, req)
+            if orc[0] == 'ok' and (orc[1] == orc[2] or orc[3] == orc[4]):
+                continue
+            st, vol = _fetch(gv, row_start=spell_int(rs, spelling), row_end=spell_int(re, spelling), column_start=spell_int(cs, spelling),
+                             column_end=spell_int(ce, spelling), as_indices=ai)
+            case = {'slide': cfg, 'request': list(req), 'accessor': 'get_volume'}
+            arr = None
+            if st == 'ok':
+                arr = np.asarray(vol.array)
+                arr = arr[0] if arr.ndim >= 3 else arr
+            cls = 'refuse' if orc[0] == 'refuse' else 'missing-tile' if _touches_omitted(cfg, *orc[1:]) else 'region'
+            ctx.case(kind='slide', request_class='get_volume:' + cls, outcome='ok' if st == 'ok' else vol.split(':')[0],
+                     organisation='TILED_FULL' if cfg['full'] else 'TILED_SPARSE')
+            if cls == 'refuse':
+                if st == 'ok':
+                    ctx.fail(case, {'what': 'request outside the matrix was not refused', 'returned_shape': list(arr.shape)}, site='Image.get_volume')
+            elif st == 'ok':
+                exp = want[orc[1]:orc[2], orc[3]:orc[4]]
+                if arr.shape[:2] != exp.shape[:2] or not np.array_equal(arr.astype(np.int64), exp.astype(np.int64)):
+                    ctx.fail(case, {'what': 'region differs from numpy slice of the total pixel matrix', 'returned_shape': list(arr.shape),
+                                    'want_shape': list(exp.shape)}, site='Image.get_volume')
+            elif cls == 'region':
+                ctx.fail(case, {'what': 'valid region refused', 'error': vol}, site='Image.get_volume')
+            if modelable(req):
+                vreqs.append(req)
+                vimpls.append(('ok', {'shape': list(arr.shape[:2]), 'data': _px(arr)}) if st == 'ok' else ('err', vol))
+        if vreqs:
+            reqs.append(('readRegions', {
+                'frames': [_px(f) for f in frames], 'rows': R, 'cols': C, 'th': th, 'tw': tw, 'full': cfg['full'],
+                'allow_missing': False, 'chan': None, 'channels': [1], 'lut': lut, 'volume': True,
+                'requests': [list(q) for q in vreqs]}))
+            pending.append(('multi', [{'slide': cfg, 'request': list(q), 'accessor': 'get_volume'} for q in vreqs], vimpls, 'L0', 'Image.get_volume'))
     # ---- L2: the instruction list of the private iterator, a few requests per image
     it = getattr(im, '_iterate_indices_for_tiled_region', None)
     if it is not None and not cfg['full']:
